@@ -532,6 +532,10 @@ class _Metadata:
         object.__setattr__(self, '_fields', fields)
 
     def __getattr__(self, name):
+        # Don't pretend to implement special methods (the copy and pickle
+        # protocols probe for them, before "_fields" exists).
+        if name == '_fields' or (name.startswith('__') and name.endswith('__')):
+            raise AttributeError(name)
         return self._fields.get(name)
 
     def __setattr__(self, name, value):
